@@ -414,6 +414,7 @@ func (w *World) lowerFunc(pkg *Pkg, key string, fd *ast.FuncDecl, fc *FuncContra
 
 	// body
 	e.pseudoAnchor("$entry", true)
+	e.resolveAnchors(fd.Body)
 	e.blockT(fd.Body.List, true)
 	e.leave()
 
